@@ -48,6 +48,7 @@ func init() {
 			{ID: "C18-R27", Title: "blocks put the enclosing table back in a deferred function", Floor: 1, Run: blocksPutTheEnclosingTableBack},
 			{ID: "C18-R28", Title: "a context that is over already is refused before the VM is marked running (shared with C06-R12)", Floor: 1, Run: finishedContextIsRefused},
 			{ID: "C18-R29", Title: "what a function counts up it counts down on every way out", Floor: 1, Run: whatAFunctionCountsUpItCountsDownOnEveryWayOut},
+			{ID: "C18-R30", Title: "a recorded length cuts the container it was taken from", Floor: 3, Run: aSnapshotLengthCutsTheContainerItWasTakenFrom},
 		},
 	})
 }
